@@ -82,6 +82,17 @@ impl PathProof {
         }
         let relevant_path = &key_path[..self.siblings.len()];
 
+        // A leaf can only be the terminal of a path its own key follows.
+        if let PathProofTerminal::Leaf(leaf_data) = &self.terminal {
+            if !leaf_data
+                .key_path
+                .view_bits::<Msb0>()
+                .starts_with(relevant_path)
+            {
+                return Err(PathProofVerificationError::TerminalOutOfPath);
+            }
+        }
+
         let cur_node = self.terminal.node::<H>();
 
         let new_root = hash_path::<H>(cur_node, relevant_path, self.siblings.iter().rev().cloned());
@@ -138,6 +149,8 @@ pub enum PathProofVerificationError {
     TooManySiblings,
     /// Root hash mismatched at the end of the verification.
     RootMismatch,
+    /// The terminal is a leaf whose key does not begin with the proven path.
+    TerminalOutOfPath,
 }
 
 /// A verified path through the trie.
@@ -311,6 +324,10 @@ pub fn verify_update<H: NodeHasher>(
             None => skip, // go to root
             Some(p) => {
                 let n = shared_bits(p.inner.path(), path.inner.path());
+                // two terminals of one trie are never prefixes of each other.
+                if n == skip {
+                    return Err(VerifyUpdateError::PathsOutOfOrder);
+                }
                 // n always < skip
                 // we want to end at layer n + 1
                 skip - (n + 1)
